@@ -74,13 +74,23 @@ func checkC12(c *Check) {
 		})
 	}
 	c.Floor("accumulating framing reads", 1, nread)
-	if len(cbCalls) != 1 {
-		if len(cbCalls) > 1 {
-			c.Bad("once-verbatim-in-order", "callback call sites", p.Pos(ing.Pos()), fmt.Sprintf("%d callback call sites: a record can be delivered more than once or records out of order", len(cbCalls)))
-		}
+	if len(cbCalls) == 0 {
 		return
 	}
 	cb := cbCalls[0]
+	if len(cbCalls) > 1 {
+		c.Bad("once-verbatim-in-order", "callback call sites", p.Pos(ing.Pos()), fmt.Sprintf("%d callback call sites: a record can be delivered more than once, out of order, or without being a complete record", len(cbCalls)))
+		// continue with the site that receives the read result on the nil edge, if any
+		for _, cand := range cbCalls {
+			for _, a := range cand.Call.Args {
+				if isStringish(a.Type()) {
+					if rd, _ := recordVerbatim(r, a, 0); rd != nil {
+						cb = cand
+					}
+				}
+			}
+		}
+	}
 	// the record argument
 	var arg ssa.Value
 	for _, a := range cb.Call.Args {
@@ -149,6 +159,24 @@ func checkC12(c *Check) {
 		okRet, why := returnsOnEdge(r, ing, nn, errEx, false)
 		c.Cond(okRet, "read-error-ends-delivery", "non-nil edge of the read error", p.InstrPos(read), "returns a non-nil error without delivering anything", why)
 	}
+	// a return reached from the read without the record having been delivered is a failure exit
+	var nilExit ssa.Instruction
+	for _, blk := range ing.Blocks {
+		if len(blk.Instrs) == 0 || blk == ing.Recover {
+			continue
+		}
+		ret, ok := blk.Instrs[len(blk.Instrs)-1].(*ssa.Return)
+		if !ok || len(ret.Results) == 0 {
+			continue
+		}
+		if searchAvoiding(ing, read, func(in ssa.Instruction) bool { return in == ssa.Instruction(ret) }, isCb) == nil {
+			continue
+		}
+		if nilKind(r, ret.Results[len(ret.Results)-1], ret) != NonNil {
+			nilExit = ret
+		}
+	}
+	c.Cond(nilExit == nil, "read-error-ends-delivery", "returns reached from the read without delivering its record", p.InstrPos(read), "all of them return a non-nil error", "Ingest can return nil after a read that did not deliver a record (end-of-stream or another read error treated as a clean end): the worker ends without error, the error group is not cancelled and the daemon keeps running with this pipe dead")
 	// callback error returned unchanged
 	cnn, _, _ := errEdge(cb)
 	if cnn == nil {
@@ -233,7 +261,7 @@ func returnsOnEdge(r *Resolver, fn *ssa.Function, b *ssa.BasicBlock, val ssa.Val
 		if !ok {
 			continue
 		}
-		if !(blk == b || b.Dominates(blk)) {
+		if !(blk == b || reachesFromBlock(b, ret)) {
 			continue
 		}
 		n++
